@@ -27,7 +27,25 @@ def detect(patch):
 
 def main():
     out_root = os.path.join(VERIF, "seeded")
-    for d in sys.argv[1:]:
+    args = sys.argv[1:]
+    rnd = None
+    first = {}
+    while args and args[0].startswith("--"):
+        if args[0] == "--round":
+            rnd = args[1]
+            args = args[2:]
+        elif args[0] == "--first-sight":
+            # matrix log written when the seed was first evaluated, before any rule was changed in response to it
+            cur = None
+            for line in open(args[1]):
+                if line.startswith("=== "):
+                    cur = line.split()[1].rstrip(":")
+                elif line.startswith("SUMMARY") and cur:
+                    h = line.split("hit=")[1].split()[0]
+                    e = line.split("err=")[1].strip()
+                    first[os.path.abspath(cur)] = {"checks_that_fired": [] if h == "-" else h.split(","), "checker_errors": [] if e == "-" else e.split(",")}
+            args = args[2:]
+    for d in args:
         d = os.path.abspath(d)
         if not os.path.exists(os.path.join(d, "patch.diff")):
             continue
@@ -38,7 +56,7 @@ def main():
         meta = json.load(open(os.path.join(d, "meta.json")))
         prop = meta["property"]
         n = os.path.basename(d)
-        name = "%s-%s" % (prop, n)
+        name = "%s-%s" % (prop, n) if not rnd else "%s-r%s-%s" % (prop, rnd, n)
         res = detect(os.path.join(d, "patch.diff"))
         if res is None:
             print("SKIP (does not apply to current /repo):", d)
@@ -68,6 +86,10 @@ def main():
                 "checker_errors": res.get("errors", {}),
             },
         }
+        if d in first:
+            m["detection"]["first_sight"] = dict(first[d], note="which checks fired when this change was first evaluated, before any rule was changed in response to it", target_property_check_fired=prop in first[d]["checks_that_fired"])
+        if rnd:
+            m["round"] = int(rnd)
         json.dump(m, open(os.path.join(dst, "meta.json"), "w"), indent=1, ensure_ascii=False)
         print("%s target=%s fires=%s" % (name, prop in hits, ",".join(sorted(hits)) or "-"), flush=True)
 
